@@ -213,9 +213,17 @@ def x4(ctx, rid):
     ctx.ok(rid, 'scan', '', 'Drop impls touching atomics: %s' % sorted(und), nontrivial=False, queries=max(1, len(und)))
 
 
+def x5(ctx, rid):
+    """a blob becomes visible as the active blob only in a state that accepts writes: nothing that can suspend or fail separates
+    `published` from `usable` (C04.T1 instances: the value stored into the active slot is certified before the store)"""
+    import props.c04 as c04
+    c04.t1(ctx, rid)
+
+
 RULES = [
     Rule('C14.X1', 'reservation of a file offset and the OS write consuming it lie in non-coroutine bodies run by a blocking runner', x1, 4),
     Rule('C14.X2', 'no suspension point between the completed record append and its index push', x2, 2),
     Rule('C14.X3', 'in client-cancellable bodies no suspension point is reachable between a move-out of shared state and its hand-back', x3, 4),
+    Rule('C14.X5', 'a blob is published in the active slot only once its index is in memory (C04.T1 instances)', x5, 7),
     Rule('C14.X4', 'no RAII guard whose Drop undoes a counter reservation is live across a suspension point of a client-cancellable future', x4, 1),
 ]
